@@ -20,7 +20,8 @@
  *   K <peer>            the peer answers everything it got so far with RST (observer / queued message cancelled)
  *   T <k>               stream peer k (0..7, known to the trace as peer 56+k) connects over TCP (a real loopback connection, accepted through the
  *                       library's own accept path) and sends its CSM
- *   t <k> <r|a|o|b> [hold] that peer sends GET /r, /a (parked as an async entry), /o (Observe=0) or /b (Block2 0/16: a transfer is left pending) on its connection
+ *   t <k> <r|a|o|q|b> [hold] that peer sends GET /r, /a (parked as an async entry), /o (Observe=0), /o?x=1 (Observe=0 under a second token: a second
+ *                       observation of the same resource on this connection) or /b (Block2 0/16: a transfer is left pending) on its connection
  *   D <k>               that peer closes its connection (the library's next read reports the reset)
  *                       (A/a/U/S/N/I/F/E apply to stream peers through their peer number 56+k)
  *   I <ms>              run the I/O loop for <ms> of virtual time
@@ -457,13 +458,15 @@ int main(int argc, char **argv) {
       while (*q == ' ') q++;
       while (*q && *q != ' ') q++;
       while (*q == ' ') q++;
-      if (tp[k].s && *q && tp[k].nin + 8 < sizeof(tp[k].in)) {
+      if (tp[k].s && *q && tp[k].nin + 12 < sizeof(tp[k].in)) {
         uint8_t *b = tp[k].in + tp[k].nin;
         size_t n = 0;
-        int obs = *q == 'o', blk = *q == 'b';
-        b[n++] = (uint8_t)(((obs ? 3 : blk ? 4 : 2) << 4) | 1); b[n++] = 1; b[n++] = (uint8_t)(0x10 + TCP_PEER0 + k);
+        int obs2 = *q == 'q';            /* a second observation of /o on this connection: another token, and a query (another cache key) */
+        int obs = *q == 'o' || obs2, blk = *q == 'b';
+        b[n++] = (uint8_t)(((obs2 ? 7 : obs ? 3 : blk ? 4 : 2) << 4) | 1); b[n++] = 1; b[n++] = (uint8_t)((obs2 ? 0x90 : 0x10) + TCP_PEER0 + k);
         if (obs) { b[n++] = 0x60; b[n++] = 0x51; } else b[n++] = 0xb1;
-        b[n++] = (uint8_t)*q;
+        b[n++] = (uint8_t)(obs2 ? 'o' : *q);
+        if (obs2) { b[n++] = 0x43; b[n++] = 'x'; b[n++] = '='; b[n++] = '1'; }
         if (blk) { b[n++] = 0xc1; b[n++] = 0x00; }              /* Block2 0 / 16 bytes: the 200-byte body becomes a transfer hanging off the session */
         tp[k].nin += n;
         hold_next[TCP_PEER0 + k] = hold;
